@@ -1389,11 +1389,23 @@ class Controller:
         '''
         See Bluetooth spec Vol 4, Part E - 7.1.6 Disconnect Command
         '''
+        handle = command.connection_handle
+        if not (
+            self.find_connection_by_handle(handle)
+            or self.find_classic_sco_link_by_handle(handle)
+            or self.central_cis_links.get(handle)
+            or self.peripheral_cis_links.get(handle)
+        ):
+            # Nothing to disconnect, no disconnection complete event will follow
+            self._send_hci_command_status(
+                hci.HCI_ErrorCode.UNKNOWN_CONNECTION_IDENTIFIER_ERROR, command.op_code
+            )
+            return
+
         # First, say that the disconnection is pending
         self._send_hci_command_status(hci.HCI_COMMAND_STATUS_PENDING, command.op_code)
 
         # Notify the link of the disconnection
-        handle = command.connection_handle
         if connection := self.find_classic_connection_by_handle(handle):
             if self.link:
                 self.send_lmp_packet(
